@@ -208,9 +208,16 @@ class Path:
             self._ground.set("timeout", min(self.timeout_ms, 1000))
             self._n_hyps = 0
             self._n_pc = 0
+            self._n_str = 0
         while self._n_hyps < len(self.hyps):
             self._full.add(self.hyps[self._n_hyps])
             self._n_hyps += 1
+        from . import ops as _ops
+
+        while self._n_str < len(_ops.STR_FACTS):
+            self._full.add(_ops.STR_FACTS[self._n_str])
+            self._ground.add(_ops.STR_FACTS[self._n_str])
+            self._n_str += 1
         if self._n_pc > len(self.pc):  # pc was truncated (merged conditional): rebuild
             self._full = None
             return self._solvers()
@@ -310,8 +317,39 @@ class Path:
             self.pos += 1
         else:
             d = can_t
-        self.pc.append(cond if d else z3.Not(cond))
+        if getattr(self, "_local", False):
+            self.__dict__.setdefault("temp", []).append(cond if d else z3.Not(cond))
+        else:
+            self.pc.append(cond if d else z3.Not(cond))
         return d
+
+    def local_paths(self, thunk, max_paths=8):
+        """Explore the paths of a small pure computation locally (conditions kept as temporary assumptions) so
+        that the caller can merge the results into one if-then-else term instead of forking the whole path.
+        Returns [(conditions, value)]; any exception of the computation propagates (caller falls back to forking)."""
+        temp = self.__dict__.setdefault("temp", [])
+        outer = (self.decisions, self.pos, getattr(self, "_local", False), dict(self.fork_positions))
+        results = []
+        stack = [[]]
+        try:
+            while stack:
+                dec = stack.pop()
+                self.decisions = list(dec)
+                self.pos = 0
+                self._local = True
+                mark = len(temp)
+                try:
+                    v = thunk()
+                    results.append((list(temp[mark:]), v))
+                finally:
+                    del temp[mark:]
+                for i in range(len(dec), len(self.decisions)):
+                    stack.append(self.decisions[:i] + [False])
+                if len(results) > max_paths:
+                    raise PathLimit("too many local paths to merge")
+        finally:
+            self.decisions, self.pos, self._local, self.fork_positions = outer
+        return results
 
 
 class DeadPath(Exception):
